@@ -96,29 +96,29 @@ Proof. exact server13_accept_implies_checks. Qed.
 Print Assumptions C03_server13_accept_implies_checks.
 
 Theorem C03_client13_accept_implies_checks_partial :
-  forall k v, p_from_client v = false -> p_cert_msg v = true ->
-    flight13_with false k v = Accept -> client13_required k v = true.
-Proof. exact client13_accept_implies_checks_partial. Qed.
+  forall bind k v, p_from_client v = false -> p_cert_msg v = true ->
+    flight13_all true bind false k v = Accept -> client13_required k v = true.
+Proof. exact client13_accept_implies_checks_partial_all. Qed.
 Print Assumptions C03_client13_accept_implies_checks_partial.
 
 (* F6: as coded, a server flight without Certificate and CertificateVerify is accepted *)
 Theorem C03_client13_unauthenticated_server_refuted :
   exists k v, p_from_client v = false /\ k_skip_verify k = false /\
     p_cert_msg v = false /\ p_cv_msg v = false /\
-    flight13_with false k v = Accept /\ client13_required k v = false.
+    (forall ipname bind, flight13_all ipname bind false k v = Accept) /\ client13_required k v = false.
 Proof. exact client13_unauthenticated_server_refuted. Qed.
 Print Assumptions C03_client13_unauthenticated_server_refuted.
 
 Theorem C03_client13_fixed_accept_implies_checks :
-  forall k v, p_from_client v = false -> flight13_with true k v = Accept -> client13_required k v = true.
-Proof. exact client13_fixed_accept_implies_checks. Qed.
+  forall bind k v, p_from_client v = false -> flight13_all true bind true k v = Accept -> client13_required k v = true.
+Proof. exact client13_fixed_accept_implies_checks_all. Qed.
 Print Assumptions C03_client13_fixed_accept_implies_checks.
 
 (* the statement that holds of the code as modelled, whichever way the F6 switch is set *)
 Theorem C03_client13_as_coded :
-  if client13_requires_server_certificate
+  if client13_requires_server_certificate && client_verifies_ip_literal_name
   then forall k v, p_from_client v = false -> flight13 k v = Accept -> client13_required k v = true
-  else exists k v, p_from_client v = false /\ k_skip_verify k = false /\ p_cert_msg v = false /\
+  else exists k v, p_from_client v = false /\ k_skip_verify k = false /\
          flight13 k v = Accept /\ client13_required k v = false.
 Proof. exact client13_as_coded. Qed.
 Print Assumptions C03_client13_as_coded.
@@ -128,19 +128,20 @@ Print Assumptions C03_client13_as_coded.
    the verification routine accept.  [*_with true] / [*_gen true] = the repaired verification
    (/repo 6569e78), [false] = the code before it. *)
 Theorem C03_client_accept_binds_signature :
-  forall c v, sig_sound_s v -> client12_with true c v = Accept -> sv_suite v = SCert ->
+  forall c v, sig_sound_s v -> client12_gen true true c v = Accept -> sv_suite v = SCert ->
     sv_scheme_fits_key v = true /\ sv_signed_by_leaf v = true /\ client_credential c v = true.
 Proof. exact client_accept_binds_signature. Qed.
 Print Assumptions C03_client_accept_binds_signature.
 
 Theorem C03_server_accept_binds_signature :
   forall chk s v, sig_sound_c v -> server12_gen true chk s v = Accept -> cl_certs_given v = true ->
+    is_psk (cl_suite v) = false ->
     cl_scheme_fits_key v = true /\ cl_signed_by_leaf v = true /\ server_credential s v = true.
 Proof. exact server_accept_binds_signature. Qed.
 Print Assumptions C03_server_accept_binds_signature.
 
 Theorem C03_flight13_accept_binds_signature :
-  forall req k v, sig_sound_p v -> flight13_gen true req k v = Accept -> p_cv_msg v = true ->
+  forall ipname req k v, sig_sound_p v -> flight13_all ipname true req k v = Accept -> p_cv_msg v = true ->
     p_scheme_fits_key v = true /\ p_signed_by_leaf v = true.
 Proof. exact flight13_accept_binds_signature. Qed.
 Print Assumptions C03_flight13_accept_binds_signature.
@@ -149,7 +150,7 @@ Print Assumptions C03_flight13_accept_binds_signature.
    claimed scheme Ed25519, empty digest) was accepted with a genuinely valid chain and name *)
 Theorem C03_client_scheme_confusion_refuted :
   exists c v, sig_sound_s v /\ cc_skip_verify c = false /\ sv_suite v = SCert /\
-    client12_with false c v = Accept /\ sv_scheme_fits_key v = false /\ sv_signed_by_leaf v = false /\
+    client12_gen true false c v = Accept /\ sv_scheme_fits_key v = false /\ sv_signed_by_leaf v = false /\
     client_credential c v = false.
 Proof. exact client_scheme_confusion_refuted. Qed.
 Print Assumptions C03_client_scheme_confusion_refuted.
@@ -164,7 +165,7 @@ Print Assumptions C03_server_scheme_confusion_refuted.
 Theorem C03_flight13_scheme_confusion_refuted :
   forall from_client, exists k v, p_from_client v = from_client /\ sig_sound_p v /\ k_skip_verify k = false /\
     k_policy k = RequireAndVerifyClientCert /\ p_x509_ok v = true /\
-    (forall req, flight13_gen false req k v = Accept) /\
+    (forall ipname req, flight13_all ipname false req k v = Accept) /\
     p_scheme_fits_key v = false /\ p_signed_by_leaf v = false /\ flight13_credential k v = false.
 Proof. exact flight13_scheme_confusion_refuted. Qed.
 Print Assumptions C03_flight13_scheme_confusion_refuted.
@@ -219,16 +220,97 @@ Theorem C03_second_conn_as_coded :
 Proof. exact second_conn_as_coded. Qed.
 Print Assumptions C03_second_conn_as_coded.
 
+(* ---- B: server-name forms.  [sv_name_ok] / [p_x509_ok] = valid for the CONFIGURED name (an IP literal is matched
+   against the IP SANs; an empty name is no requirement).  Before /repo 1f5f836 an IP literal was not verified. *)
+Theorem C03_client_ip_name_refuted :
+  exists c v, cc_name_is_ip c = true /\ cc_skip_verify c = false /\ sv_suite v = SCert /\ sv_name_ok v = false /\
+    (forall bind, client12_gen false bind c v = Accept) /\ client_required c v = false /\
+    (forall bind, client12_gen true bind c v = Reject a_bad_certificate).
+Proof. exact client_ip_name_refuted. Qed.
+Print Assumptions C03_client_ip_name_refuted.
+
+Theorem C03_client13_ip_name_refuted :
+  exists k v, p_from_client v = false /\ k_skip_verify k = false /\ k_name_is_ip k = true /\ p_x509_ok v = false /\
+    (forall bind req, flight13_all false bind req k v = Accept) /\ client13_required k v = false /\
+    (forall bind req, flight13_all true bind req k v = Reject a_bad_certificate).
+Proof. exact client13_ip_name_refuted. Qed.
+Print Assumptions C03_client13_ip_name_refuted.
+
+Theorem C03_server_name_as_coded :
+  if client_verifies_ip_literal_name
+  then forall c v, client12 c v = Accept -> sv_suite v = SCert -> cc_skip_verify c = false -> sv_name_ok v = true
+  else exists c v, cc_name_is_ip c = true /\ cc_skip_verify c = false /\ sv_suite v = SCert /\
+         client12 c v = Accept /\ sv_name_ok v = false.
+Proof. exact server_name_as_coded. Qed.
+Print Assumptions C03_server_name_as_coded.
+
+(* ---- C: an empty pre-shared key.  Premise [psk_sound_*]: with a NON-EMPTY key only a peer holding it
+   produces a Finished that opens and verifies.  Before /repo f39ce00 an empty key was used as it came. *)
+Theorem C03_client_accept_psk_binds :
+  forall bind c v, psk_sound_s v -> client12_all true true bind c v = Accept -> cc_psk_cb c = true ->
+    sv_psk_nonempty v = true /\ sv_peer_knows_psk v = true.
+Proof. exact client_accept_psk_binds. Qed.
+Print Assumptions C03_client_accept_psk_binds.
+
+Theorem C03_server_accept_psk_binds :
+  forall bind chk s v, psk_sound_c v -> server12_all true bind chk s v = Accept -> is_psk (cl_suite v) = true ->
+    cl_psk_nonempty v = true /\ cl_peer_knows_psk v = true.
+Proof. exact server_accept_psk_binds. Qed.
+Print Assumptions C03_server_accept_psk_binds.
+
+Theorem C03_client_empty_psk_refuted :
+  exists c v, psk_sound_s v /\ cc_psk_cb c = true /\ is_psk (sv_suite v) = true /\
+    (forall ipname bind, client12_all false ipname bind c v = Accept) /\
+    sv_psk_nonempty v = false /\ sv_peer_knows_psk v = false /\ client_credential c v = false /\
+    (forall ipname bind, client12_all true ipname bind c v = Reject 80).
+Proof. exact client_empty_psk_refuted. Qed.
+Print Assumptions C03_client_empty_psk_refuted.
+
+Theorem C03_server_empty_psk_refuted :
+  exists s v, psk_sound_c v /\ is_psk (cl_suite v) = true /\
+    (forall bind chk, server12_all false bind chk s v = Accept) /\
+    cl_psk_nonempty v = false /\ cl_peer_knows_psk v = false /\ server_credential s v = false /\
+    (forall bind chk, server12_all true bind chk s v = Reject 80).
+Proof. exact server_empty_psk_refuted. Qed.
+Print Assumptions C03_server_empty_psk_refuted.
+
+Theorem C03_empty_psk_as_coded :
+  if psk_refuses_empty_key
+  then (forall c v, client12 c v = Accept -> cc_psk_cb c = true -> sv_psk_nonempty v = true) /\
+       (forall s v, server12 s v = Accept -> is_psk (cl_suite v) = true -> cl_psk_nonempty v = true)
+  else (exists c v, cc_psk_cb c = true /\ client12 c v = Accept /\ sv_psk_nonempty v = false /\ sv_peer_knows_psk v = false) /\
+       (exists s v, is_psk (cl_suite v) = true /\ server12 s v = Accept /\ cl_psk_nonempty v = false /\
+          cl_peer_knows_psk v = false).
+Proof. exact empty_psk_as_coded. Qed.
+Print Assumptions C03_empty_psk_as_coded.
+
+(* ---- D (known finding, not repaired): a PSK-only client on DTLS 1.3 *)
+Theorem C03_client13_psk_only_refuted :
+  exists k v, p_from_client v = false /\ k_psk_only k = true /\ sig_sound_p v /\
+    (forall ipname bind req, flight13_top false ipname bind req k v = Accept) /\
+    flight13_credential k v = false /\
+    (forall ipname bind req, flight13_top true ipname bind req k v = Reject a_handshake_failure).
+Proof. exact client13_psk_only_refuted. Qed.
+Print Assumptions C03_client13_psk_only_refuted.
+
+Theorem C03_psk_only_as_coded :
+  if client13_refuses_psk_only
+  then forall k v, flight13 k v = Accept -> p_from_client v = true \/ k_psk_only k = false
+  else exists k v, p_from_client v = false /\ k_psk_only k = true /\ flight13 k v = Accept /\
+         flight13_credential k v = false.
+Proof. exact psk_only_as_coded. Qed.
+Print Assumptions C03_psk_only_as_coded.
+
 (* non-vacuity: an honest certificate server is accepted, the same server under another CA is not *)
 Example C03_example_accept :
-  client12 (mk_ccfg false false false false)
-           (mk_sview SCert true true true true true true true true true true true true true true true true) = Accept.
+  client12 (mk_ccfg false false false false false)
+           (mk_sview SCert true true true true true true true true true true true true true true true true true true) = Accept.
 Proof. reflexivity. Qed.
 Example C03_example_wrong_ca :
-  client12 (mk_ccfg false false false false)
-           (mk_sview SCert true true true true true true false true true true true true true true true true) = Reject a_bad_certificate.
+  client12 (mk_ccfg false false false false false)
+           (mk_sview SCert true true true true true true false true true true true true true true true true true true) = Reject a_bad_certificate.
 Proof. reflexivity. Qed.
 Example C03_example_cert_without_cv_waits :
   server12 (mk_scfg RequireAnyClientCert false false)
-           (mk_cview SCert true true true false true true true true true true true true true true) = Wait.
+           (mk_cview SCert true true true false true true true true true true true true true true true true) = Wait.
 Proof. reflexivity. Qed.
